@@ -2,13 +2,16 @@
    Model (Escape.v): strings with a Markup flag, markupsafe.escape, the Markup algebra (+, join, replace, split, slicing, case,
    strip keep the flag and escape their arguments; plain-str operations drop it), html.unescape, the filters' autoescape
    branches, to_liquid_string, string literals, capture, and an interpreter for text / output / echo / assign / capture /
-   if-unless-case / for / cycle / include / render.  [exec true] is Environment(autoescape=True). *)
+   if-unless-case / for / cycle / include / render / translate, and the five translation filters under both registrations.
+   [exec true] is Environment(autoescape=True). *)
 From Coq Require Import ZArith List Bool.
 From LiquidVerif Require Import Prelude Escape Escape_Proofs.
 Local Open Scope N_scope.
 
 (* First clause, full strength: for EVERY template of the modelled language whose literal texts hold no raw < > quote, using ANY
-   of the modelled filters in chains of any length, and every state whose values marked safe hold none (plain data is not
+   of the modelled filters in chains of any length (including t / gettext / ngettext / pgettext / npgettext with any message
+   variables, plural and count, registered by extra=True, or registered by hand provided their message texts are template
+   literals) and the translate tag, and every state whose values marked safe hold none (plain data is not
    constrained at all), the rendered text holds no raw < > double or single quote. *)
 Theorem C05_no_injection : forall fuel st p out st',
   forallb (stmt_ok no_raw any_filter) p = true ->
@@ -79,6 +82,27 @@ Theorem C05_lock_step : forall fuel s s' p,
 Proof. exact exec_rel. Qed.
 Print Assumptions C05_lock_step.
 
+(* The model tells the two seeded behaviours of the translation filters apart from the current code: (hand registration)
+   escaping the %(name)s variables only when autoescape_message lets <b> through; (extra registration) a plural taken from
+   data that skips to_liquid_string because it already is a str is printed raw by ngettext, and only by ngettext. *)
+Theorem C05_translation_variants_refuted :
+  (let run vr := text_of (trans_apply true (look_of d_hostile) vr TT false [] [([97], AVar [120])] (VS (markup m_hello))) in
+   no_raw (run TrCurrent) = true /\ no_raw (run TrVarsOnlyIfAem) = false /\ run TrPluralStrRaw = run TrCurrent) /\
+  (let run vr := text_of (trans_apply true (look_of d_hostile) vr TNgettext true [AVar [121]; ALit [50]] [] (VS (markup [111; 110; 101]))) in
+   no_raw (run TrCurrent) = true /\ no_raw (run TrPluralStrRaw) = false /\ run TrVarsOnlyIfAem = run TrCurrent) /\
+  (let run vr := text_of (trans_apply true (look_of d_hostile) vr TNpgettext true [ALit [99]; AVar [121]; ALit [50]] [] (VS (markup [111; 110; 101]))) in
+   run TrPluralStrRaw = run TrCurrent).
+Proof. exact translation_variants_refuted. Qed.
+Print Assumptions C05_translation_variants_refuted.
+
+(* The hypothesis on hand-registered filters (message texts are literals) is needed: with autoescape_message = False the left
+   value is trusted and printed as it is; with extra=True it is escaped. *)
+Theorem C05_hand_registration_trusts_message :
+  no_raw (text_of (trans_apply true (look_of d_hostile) TrCurrent TT false [] [] (VS (plain [60; 98; 62])))) = false /\
+  no_raw (text_of (trans_apply true (look_of d_hostile) TrCurrent TT true [] [] (VS (plain [60; 98; 62])))) = true.
+Proof. exact hand_registration_trusts_message. Qed.
+Print Assumptions C05_hand_registration_trusts_message.
+
 (* non-vacuity and reading aids *)
 Example C05_example_on :   (* {% capture z %}{{ x | escape }}{% endcapture %}{{ z | append: x | upcase }} with x = <a&b> *)
   out_of [SCapture [122] [SOut (EFilt xvar FEscape)];
@@ -90,5 +114,12 @@ Example C05_hypotheses_satisfiable :
   forallb (stmt_ok no_raw any_filter) [SText [97]; SOut (EFilt (EFilt xvar (FSplit (ALit [108]))) (FJoin None))] = true /\
   forallb (stmt_ok wf_lit keeps_entities) [SOut (EFilt (EFilt xvar FEscapeOnce) (FAppend (ALit [97; 59])))] = true /\
   forallb (stmt_ok clean plain_filters) [SOut (EFilt xvar (FReplace (ALit [97]) (AVar [120])))] = true /\
-  clean_data [([120], VS (plain [97; 98]))] = true.
+  clean_data [([120], VS (plain [97; 98]))] = true /\
+  (* translation: by extra=True on a data message with a data plural; by hand on literal messages with data variables; the tag *)
+  forallb (stmt_ok no_raw any_filter)
+    [SOut (EFilt xvar (FTrans TNgettext true [AVar [121]; AVar [110]] [([97], AVar [120])]));
+     SOut (EFilt (EAtom (ALit m_hello)) (FTrans TT false [] [([97], AVar [120]); ([112; 108; 117; 114; 97; 108], ALit m_hello); ([99; 111; 117; 110; 116], AVar [110])]));
+     STranslate [([97], AVar [120])] [MText [72; 105; 32]; MVar [97]] (Some [MVar [97]; MVar [121]])] = true /\
+  (* ... and a hand-registered filter on a data message is rejected by the hypothesis *)
+  forallb (stmt_ok no_raw any_filter) [SOut (EFilt xvar (FTrans TT false [] []))] = false.
 Proof. repeat split; vm_compute; reflexivity. Qed.
